@@ -826,8 +826,9 @@ def gen_c06(rng, tier):
         src = f'a<!-- <removal-marker name="{name}"> -->x<!-- </removal-marker> -->b'
         cases.append(kcase(f"kd{j}", "C", False, "S", "O", None, None, None, None, 0, G.NOW, None, [], None, src))
         meta[f"kd{j}"] = {"stream": "cli-defaults", "expect_stdout": src}
-        cases.append(kcase(f"ke{j}", "C", False, "S", "O", None, None, None, None, 0, G.NOW, None, [name], None, src))
-        meta[f"ke{j}"] = {"stream": "cli-defaults", "expect_stdout": "ab"}
+        if "<" not in name and ">" not in name:
+            cases.append(kcase(f"ke{j}", "C", False, "S", "O", None, None, None, None, 0, G.NOW, None, [name], None, src))
+            meta[f"ke{j}"] = {"stream": "cli-defaults", "expect_stdout": "ab"}
     return merge(corpus_cases(), (cases, meta), docs)
 
 
